@@ -32,7 +32,10 @@ def splitRecord (line : String) : String × List String × String :=
 
 def stepLine (st : DriverSt) (line : String) : DriverSt × String :=
   let (cmd, args, impl) := splitRecord line
-  if cmd.startsWith "mono." then
+  -- a record whose execution on the real library did not come back within the harness's deadline: the model always
+  -- answers, and every property here says "never hangs"
+  if impl.startsWith "hang:" then (st, s!"NE H0:hang model:returns B:{impl}")
+  else if cmd.startsWith "mono." then
     let (m, out) := Driver.Mono.step st.mono cmd args impl
     ({ st with mono := m }, out)
   else if cmd.startsWith "strip." then (st, Driver.Strip.step cmd args impl)
